@@ -278,6 +278,14 @@ Variable t : tables.
 Variable e : ec.
 (* to_er7 of datatype_factory(dt, text, version, level) under `e` (Model/Leaf.v) *)
 Variable leaf_enc : level -> option str -> str -> result str.
+(* exotic = true is hl7apy.  Two code paths are never taken with the standard tables but cannot be
+   excluded for arbitrary structures: (1) a Component / SubComponent called VARIES_n is attached by
+   Element.__init__ while its name is still None and named afterwards; (2) ElementList.set looks
+   the replaced child up under a name that _find_name maps to yet another name.  With
+   exotic = false the model raises OutOfFuel at those two points instead; this variant is used
+   only to STATE that an operation does not take them (both settings then give the same result;
+   the correspondence run checks this on every history). *)
+Variable exotic : bool.
 
 Notation base := (base t).
 Definition strict (n : node) : bool := is_strict (n_lvl n).
@@ -507,11 +515,13 @@ Definition finder (P : node) (k : option str) (i : nat) : option nat :=
   | None => nth_error (iget k (n_tidx P)) i
   end.
 
-(* child_at_index(name, index): name as given by the caller *)
-Definition child_at_index (p : nat) (name : str) (i : nat) : M (option nat) :=
+(* child_at_index(name, index): name as given by the caller; `guarded` marks the call from set() *)
+Definition child_at_index (guarded : bool) (p : nat) (name : str) (i : nat) : M (option nat) :=
   let! P := node_of p in
   let! '(cname, _) := lift (fcr P (upper name)) in
-  if streqb cname name then ret (finder P (Some name) i) else ret (finder P (Some cname) i).
+  if streqb cname name then ret (finder P (Some name) i)
+  else if guarded then raise OutOfFuel
+  else ret (finder P (Some cname) i).
 
 Definition replace_child (p old new : nat) : M unit :=
   let! O := node_of old in
@@ -536,34 +546,26 @@ Definition fresh (c : cls) (name : option str) (lvl : level) (st : option struct
 Definition alloc_sub (lvl : level) (parent : option nat) (x : sub) : M nat :=
   alloc (with_parent (with_value (fresh CSub (sc_name x) lvl None (sc_dt x)) (sc_value x) (sc_enc x)) parent).
 
-(* allocate a node and its children; the children are listed in order, by name, with parent pointers *)
-Fixpoint alloc_kids {A} (f : option nat -> A -> M nat) (parent : nat) (l : list A) : M (list nat) :=
+(* allocate the children of a freshly allocated node one after the other; each is listed (in order,
+   and by name) as soon as it exists, exactly as the parser's  parent.add(child)  does *)
+Fixpoint alloc_kids {A} (f : option nat -> A -> M nat) (parent : nat) (l : list A) : M unit :=
   match l with
-  | [] => ret []
-  | x :: r => let! i := f (Some parent) x in let! is := alloc_kids f parent r in ret (i :: is)
+  | [] => ret tt
+  | x :: r => let! i := f (Some parent) x in do_append parent i ;; alloc_kids f parent r
   end.
-
-Definition index_of_kids (s : store) (kids : list nat) : imap :=
-  fold_left (fun m c => let k := n_name (getn s c) in iset k (iget k m ++ [c]) m) kids [].
-
-Definition install_kids (p : nat) (kids : list nat) : M unit :=
-  modify (fun s => setn s p (with_children (getn s p) kids (index_of_kids s kids) [])).
 
 Definition alloc_comp (lvl : level) (parent : option nat) (x : comp) : M nat :=
   let! i := alloc (with_parent (fresh CComp (c_name x) lvl (c_st x) (c_dt x)) parent) in
-  let! kids := alloc_kids (alloc_sub lvl) i (c_children x) in
-  install_kids i kids ;; ret i.
+  alloc_kids (alloc_sub lvl) i (c_children x) ;; ret i.
 
 Definition alloc_field (lvl : level) (parent : option nat) (x : field) : M nat :=
   let! i := alloc (with_parent (fresh CField (f_name x) lvl (f_st x) (f_dt x)) parent) in
-  let! kids := alloc_kids (alloc_comp lvl) i (f_children x) in
-  install_kids i kids ;; ret i.
+  alloc_kids (alloc_comp lvl) i (f_children x) ;; ret i.
 
 Definition alloc_seg (lvl : level) (x : seg) : M nat :=
   let! i := alloc (mk_node CSeg (Some (s_name x)) lvl (t_version t) None None [] [] [] (Some (s_st x)) None [] []
                            (s_inf x) (s_last_allowed x) (s_last x)) in
-  let! kids := alloc_kids (alloc_field lvl) i (s_children x) in
-  install_kids i kids ;; ret i.
+  alloc_kids (alloc_field lvl) i (s_children x) ;; ret i.
 
 (* reference[2] of a child reference *)
 Definition ref_dt (r : sref) : result (option str) :=
@@ -617,10 +619,13 @@ Definition create_element (p : nat) (name : str) (traversal : bool) (reference :
   let! nd := lift (ctor_node P cname cref) in
   let early_name := if valid_child_name (Some cname) (Some (unbs "VARIES")) && negb (cls_eqb (n_cls P) CSeg)
                     then None else n_name nd in
+  let renamed := negb (opt_eqb early_name (n_name nd)) in
+  if renamed && negb exotic then raise OutOfFuel else
   let! c := alloc (with_name nd early_name) in
   (if traversal then set_tparent_raw c (Some p) ;; add p c
    else point_to c p ;; add p c) ;;
-  set_name c (n_name nd) ;;
+  (* CanBeVaries.__init__: self.name = name.upper(), only on the VARIES_n path *)
+  (if renamed then set_name c (n_name nd) else ret tt) ;;
   ret c.
 
 (* ---------- encoding (to_er7) over the heap ---------- *)
@@ -834,7 +839,7 @@ Definition set_child (p : nat) (name : str) (v : value) (index : nat) : M unit :
                  end) in
   let! C := node_of child in
   if negb (opt_eqb (n_name C) (Some cname)) then raise (HL7 EChildNotValid) else
-  let! old := child_at_index p cname index in
+  let! old := child_at_index (negb exotic) p cname index in
   (match old with
    | None => append p child
    | Some o => replace_child p o child
@@ -1020,7 +1025,7 @@ Definition set_list_index (x : nat) (i : nat) (v : value) : M unit :=
 
 (* del x.<name> : children.remove_by_name(name) *)
 Definition del_child (x : nat) (name : str) : M unit :=
-  let! c := child_at_index x name 0 in
+  let! c := child_at_index false x name 0 in
   match c with
   | None => raise (Crash AttributeError)        (* None.traversal_parent *)
   | Some c => remove_child x c
